@@ -1,6 +1,7 @@
 package e1
 
 import (
+	"math/big"
 	"fmt"
 	"strings"
 	"time"
@@ -248,6 +249,7 @@ func genC20(r *core.Rand, env *core.Env, run int) *Scenario {
 		sc.Knobs.ConfigText = genConfigText(r, sc.Knobs.ShardNum, ndb)
 	}
 	nc := 1 + r.Intn(4)
+	withDeadlines := r.Bool(0.4)
 	keys := []string{"k", "j"}
 	uniq := 0
 	total := 0
@@ -258,6 +260,12 @@ func genC20(r *core.Rand, env *core.Env, run int) *Scenario {
 		case 1:
 			return bs("select", "-1")
 		case 2:
+			if r.Bool(0.3) {
+				// a canonical numeral far out of range that equals a valid index modulo
+				// 2^64 or 2^32 (a hand-rolled digit loop without overflow check accepts it)
+				b := new(big.Int).Lsh(big.NewInt(int64(1+r.Intn(2))), pick(r, []uint{64, 64, 32}))
+				return bs("select", b.Add(b, big.NewInt(int64(r.Intn(ndb)))).String())
+			}
 			return bs("select", pick(r, []string{"x", "", "1.5", " 0", "99999999999999999999", "+1", "01", "0x1", "1 ", "1e0"}))
 		case 3:
 			return bs("select")
@@ -283,6 +291,13 @@ func genC20(r *core.Rand, env *core.Env, run int) *Scenario {
 			case 5:
 				p.Steps = append(p.Steps, Step{Kind: "cmd", Args: bs("get", k)})
 			default:
+				if withDeadlines && r.Bool(0.6) {
+					// deadlines belong to the database they were set in, like the values
+					uniq++
+					p.Steps = append(p.Steps, Step{Kind: "cmd", Args: pick(r, [][]B{bs("set", k, fmt.Sprintf("v%d_%d", ci, uniq), "ex", pick(r, []string{"100", "900"})),
+						bs("expire", k, pick(r, []string{"200", "700"})), bs("ttl", k), bs("ttl", k), bs("persist", k)})})
+					break
+				}
 				p.Steps = append(p.Steps, Step{Kind: "cmd", Args: bs(pick(r, []string{"exists", "del"}), k)})
 			}
 			total++
@@ -312,6 +327,9 @@ func genC20(r *core.Rand, env *core.Env, run int) *Scenario {
 		aud.Steps = append(aud.Steps, Step{Kind: "cmd", Args: bs("select", itoa(d))})
 		for _, k := range keys {
 			aud.Steps = append(aud.Steps, Step{Kind: "cmd", Args: bs("get", k)})
+			if withDeadlines {
+				aud.Steps = append(aud.Steps, Step{Kind: "cmd", Args: bs("ttl", k)})
+			}
 		}
 	}
 	sc.Clients = append(sc.Clients, aud)
